@@ -12,12 +12,35 @@ Definition bres_eqb {A} (eqb : A -> A -> bool) (a b : bres A) : bool :=
   | BOverflow, BOverflow | BTakeCannotBeSatisfied, BTakeCannotBeSatisfied | BPanic, BPanic => true
   | _, _ => false
   end.
-(* inputs (l1, l2, u1, u2, take); outputs of cmp/add_from; of take_amount/constrain_to *)
-Definition case := ((lower * lower * upper * upper * Z) * (comparison * comparison * bres lower * bres upper)
+Definition gerr_eqb (a b : gerr) : bool :=
+  match a, b with
+  | GEOverflow, GEOverflow | GEDuplicateId, GEDuplicateId | GETakeCannotBeSatisfied, GETakeCannotBeSatisfied
+  | GENegativeAmount, GENegativeAmount | GEAssertionCannotBeSatisfied, GEAssertionCannotBeSatisfied => true
+  | _, _ => false
+  end.
+Definition gres_eqb (a b : gres) : bool :=
+  match a, b with
+  | GOk x, GOk y => general_eqb x y
+  | GErr x, GErr y => gerr_eqb x y
+  | _, _ => false                 (* GPanic never agrees *)
+  end.
+(* numeric case: inputs (l1, l2, u1, u2, take); outputs of cmp/add_from; of take_amount/constrain_to *)
+Definition numcase := ((lower * lower * upper * upper * Z) * (comparison * comparison * bres lower * bres upper)
                     * (bres lower * bres upper * lower * upper))%type.
-Definition check (c : case) : bool :=
+Inductive case :=
+| CNum (c : numcase)
+(* ResourceBounds b1 b2 assertion, taken ids, take amount; results of b1.add(b2), b1.take(ids), b1.take(amount), b1.handle_assertion(a) *)
+| CIds (g1 g2 ga : general) (taken : idset) (t : Z) (radd rtake rtamt rass : gres).
+Definition check_num (c : numcase) : bool :=
   let '((l1, l2, u1, u2, t), (cl, cu, la, ua), (lt, ut, lc, uc)) := c in
   cmp_eqb (lower_cmp l1 l2) cl && cmp_eqb (upper_cmp u1 u2) cu &&
   bres_eqb lower_eqb (lower_add_from l1 l2) la && bres_eqb upper_eqb (upper_add_from u1 u2) ua &&
   bres_eqb lower_eqb (lower_take_amount l1 t) lt && bres_eqb upper_eqb (upper_take_amount u1 t) ut &&
   lower_eqb (lower_constrain_to l1 l2) lc && upper_eqb (upper_constrain_to u1 u2) uc.
+Definition check (c : case) : bool :=
+  match c with
+  | CNum n => check_num n
+  | CIds g1 g2 ga taken t radd rtake rtamt rass =>
+      gres_eqb (bounds_add g1 g2) radd && gres_eqb (bounds_take_ids g1 taken) rtake &&
+      gres_eqb (bounds_take_amount g1 t) rtamt && gres_eqb (bounds_assert g1 ga) rass
+  end.
